@@ -5,10 +5,10 @@
    are regenerated from /repo on every run (GenApi.v).  Where the code as it is violates the full
    statement, the full theorem is stated under the switch value of the repaired code, next to a
    _refuted theorem (witness history) and a _partial theorem (exact guard) for the code as it is. *)
-From Coq Require Import List String ZArith Bool Arith.
-Require Import XV.GenApi XV.ApiDefs XV.ApiModel.
+From Coq Require Import List ZArith Bool Arith.
+Require Import XV.ApiName XV.GenApi XV.ApiDefs XV.ApiModel.
 Import ListNotations.
-Close Scope string_scope.
+Close Scope name_scope.
 Open Scope list_scope.
 
 (* ---- the translator tie ------------------------------------------------------------------- *)
@@ -58,7 +58,7 @@ Print Assumptions residue_always_clean.
 Theorem residue_always_clean_refuted :
   objstack_reset_rewinds = false -> exists h, st_residue (run h) <> [].
 Proof.
-  intro H. exists [OTransSS 0 0 Ok Ok 0 [(CSecd, "m_stringStack"%string)]].
+  intro H. exists [OTransSS 0 0 Ok Ok 0 [(CSecd, "m_stringStack"%name)]].
   rewrite residue_single_success. rewrite objstack_member_kept; [discriminate| | |exact H]; vm_compute; reflexivity.
 Qed.
 Print Assumptions residue_always_clean_refuted.
